@@ -113,15 +113,19 @@ func prepareOverlay(v variant, tmp string) (string, error) {
 			rel := m[1]
 			src := filepath.Join(*flagRepo, rel)
 			dst := filepath.Join(tmp, rel)
+			os.MkdirAll(filepath.Dir(dst), 0o755)
+			overlay[src] = dst
 			b, err := os.ReadFile(src)
 			if err != nil {
+				// a file the patch creates: git apply writes it, the overlay adds it to the package
+				if strings.Contains(string(pb), "new file mode") {
+					continue
+				}
 				return "", fmt.Errorf("skipped(file %s missing)", rel)
 			}
-			os.MkdirAll(filepath.Dir(dst), 0o755)
 			if err := os.WriteFile(dst, b, 0o644); err != nil {
 				return "", err
 			}
-			overlay[src] = dst
 		}
 		cmd := exec.Command("git", "apply", "--unsafe-paths", "-p1", v.Patch)
 		cmd.Dir = tmp
